@@ -600,9 +600,20 @@ class Folder(object):
                     return FuncVal(fi, bound=receiver)
                 return FuncVal(fi)
             if k.startswith('property') or k == 'descriptor':
-                if isinstance(receiver, Instance) and k == 'property':
-                    return self.call_func(FuncVal(fi, bound=receiver), [], {},
-                                          fi.node, Env(fi.module))
+                if isinstance(receiver, Instance) and k.startswith(
+                        'property'):
+                    getter = fi
+                    if k != 'property':
+                        # the last definition is the setter/deleter: the
+                        # getter is the sibling definition of kind property
+                        getter = None
+                        for d in ad.owner.attrs.get(ad.name, []):
+                            if d.kind == 'def' and d.value.kind == 'property':
+                                getter = d.value
+                    if getter is not None:
+                        return self.call_func(
+                            FuncVal(getter, bound=receiver), [], {},
+                            getter.node, Env(getter.module))
                 return Opaque('property %s' % fi.qualname)
             raise AnalysisError('unknown function kind %s' % k, fi.node,
                                 rel(fi.path))
@@ -983,7 +994,20 @@ class Folder(object):
         elif isinstance(t, ast.Attribute):
             obj = self.eval(t.value, env)
             if isinstance(obj, Instance):
-                obj.attrs[t.attr] = v
+                setter = None
+                for c in self.db.mro(obj.ci):
+                    defs = c.attrs.get(t.attr)
+                    if defs:
+                        for d in defs:
+                            if d.kind == 'def' and \
+                                    d.value.kind == 'property_setter':
+                                setter = d.value
+                        break
+                if setter is not None:
+                    self.call_func(FuncVal(setter, bound=obj), [v], {}, t,
+                                   env)
+                else:
+                    obj.attrs[t.attr] = v
             elif isinstance(obj, Opaque):
                 pass
             else:
